@@ -150,7 +150,14 @@ func (c *Ctx) handSquare() ([][]byte, string) {
 		idx[j] = uint32(base + starts[j])
 	}
 	declared := append([]int(nil), sizes...)
-	switch c.rng.Intn(6) {
+	tail := c.rng.Intn(3)
+	total := base + len(blobShares) + tail
+	switch c.rng.Intn(8) {
+	case 6, 7: // two cooperating lies: an index at / next to the end of the square and a tiny or huge declared size
+		j := c.rng.Intn(nb)
+		idx[j] = uint32(total + c.rng.Pick([]int{-1, 0, 0, 1}))
+		declared[j] = c.rng.Pick([]int{0, 0, 1, 478, 1<<32 - 1})
+		kind = "index-at-end+size"
 	case 0:
 		idx[c.rng.Intn(nb)] = uint32(c.rng.Pick([]int{0, 1, 1 << 20, 1<<32 - 1, base + len(blobShares), base + len(blobShares) + 1, 1000}))
 		kind = "wrong-index"
@@ -178,7 +185,7 @@ func (c *Ctx) handSquare() ([][]byte, string) {
 		return nil, ""
 	}
 	all := append(append(append([]share.Share(nil), txShares...), pfbShares...), blobShares...)
-	all = append(all, share.TailPaddingShares(c.rng.Intn(3))...)
+	all = append(all, share.TailPaddingShares(tail)...)
 	return sharesToBytes(all), kind
 }
 
